@@ -269,12 +269,13 @@ impl Scenario for C15Des {
     let h = hash_mix(hash_str(&trace), fin.count.load(SeqCst) as u64);
     let evs = log.events();
     drop(handle);
+    let sim_end = w.now();
     drop(w);
     Ok(Outcome {
       violation,
       trace_hash: h,
       nontrivial: repeats > 0 || case.trigs.len() >= 2,
-      sim_ns: 0,
+      sim_ns: sim_end,
       steps: case.trigs.len() as u64,
       faults: vec![("repeated_trigger", repeats)],
       reach: vec![],
@@ -499,12 +500,13 @@ impl Scenario for C15Clones {
     }
     let h = hash_mix(hash_str(&trace), fin.count.load(SeqCst) as u64);
     handles.clear();
+    let sim_end = w.now();
     drop(w);
     Ok(Outcome {
       violation,
       trace_hash: h,
       nontrivial: true,
-      sim_ns: 0,
+      sim_ns: sim_end,
       steps: case.trigs.len() as u64,
       faults: vec![],
       reach: vec![],
